@@ -870,10 +870,8 @@ class _Init(Unit):
 
     @staticmethod
     def _handles(out):
-        """(open events, close events, opaque read handles) of the final state"""
-        ev = out.state.trace
-        hs = [c.data for c in out.state.heap.values() if c.kind == "file" and isinstance(c.data, dict) and c.data.get("mode") == "r"]
-        return hs
+        """the read handles that exist in the final state (every open() allocates one)"""
+        return [c.data for c in out.state.heap.values() if c.kind == "file" and isinstance(c.data, dict) and c.data.get("mode") == "r"]
 
     def handle_clause(self, out, nread):
         """exactly one handle exists, it belongs to the neighbour file, `nread` records were consumed from it, it is closed"""
@@ -1466,6 +1464,7 @@ def _replay_relaxation(kind, case, clause, model, seed):
 CSQ_KEY = "PyMatterSim.static.sq.conditional_sq"
 CWV_KEY = "PyMatterSim.utils.wavevector.choosewavevector"
 SQCOLS = ["q", "Sq"]
+VALUE_C13 = "value-in-the-terms-of-C13:Sq[g]=origin-average-of-the-|q|-group-mean-of-round8(|sum_i[mobile_i]exp(-iq.r_i)|^2/N_mobile)"
 
 
 def _first_for(qualname, contains):
@@ -1553,6 +1552,10 @@ class DynSq4(Unit):
         ctx.assume(G >= 0)
         M = ctx.int("nvectors")
         ctx.assume(M >= 0)
+        CS = z3.Function("CSQ", I_, I_, I_, R_)              # (origin frame, row, column) of conditional_sq's second table at this lag
+
+        def cs(n, g, ci):
+            return sv.SV(CS(sv.znum(n), sv.znum(g), z3.IntVal(ci)))
         norig = sv.sub(T, lag)
         ctx.assume(M >= 1)                                   # precondition of conditional_sq's contract (C13: nq >= 1)
         # ---- the table conditional_sq returns for origin frame n, in the terms of C13's contract (contracts/C13.py, unit
@@ -1662,7 +1665,10 @@ class DynSq4(Unit):
             st.require(sv.cmp(">=", qv.shape[0], 1) if isinstance(qv, A.Arr) else False, "call:conditional_sq:pre:at-least-one-wave-vector")
             for c_ in range(d):
                 st.require(sv.cmp(">", _FrameAsTraj(n).bl(0, c_), 0), "call:conditional_sq:pre:box-lengths-positive")
-            tab = frame_table(lambda g, ci: csq_spec(n, g, ci))
+            # ensures (C13): the second table is CSQ(n, ., .) := csq_spec(n, ., .).  The loop invariant and the origin average are
+            # proved for the symbol CSQ (any table per origin); the defining equation enters where the result is stated in C13's
+            # terms (clause value-in-the-terms-of-C13, opts array_facts) — so a broken variant fails small queries quickly
+            tab = frame_table(lambda g, ci: cs(n, g, ci))
             return (None, tab)
         self.summaries = {"PyMatterSim.utils.pbc.remove_pbc": summ_remove_pbc(W), MOD + ".cage_relative": summ_cage_relative(W), CSQ_KEY: csq, CWV_KEY: cwv}
         ctx.interp.summaries = dict(self.summaries)
@@ -1673,7 +1679,7 @@ class DynSq4(Unit):
             var = "ave_sqresults"
 
             def inv(k):
-                return frame_table(lambda g, ci: Sum(lo, k, lambda n: csq_spec(n, g, ci)))
+                return frame_table(lambda g, ci: Sum(lo, k, lambda n: cs(n, g, ci)))
 
             def run(kv, val, extra):
                 fr = Frame(frame.module, dict(frame.env), frame.fname)
@@ -1714,13 +1720,19 @@ class DynSq4(Unit):
         ln = _first_for(self.qualname, "conditional_sq")
         ctx.interp.loop_hints[(f"{MOD}.{self.qualname}", "for", ln)] = hint
         of = "s4.csv" if fil else ""
-        inp = dict(W=W, T=T, G=G, CS=csq_spec, lag=lag, norig=norig, of=of, g=ctx.int("g"),
+        def cs_def(n, g, ci):
+            """callee postcondition of conditional_sq (C13) as a fact about the symbol CSQ, instantiated per application"""
+            n, g = sv.SV(n), sv.SV(g)
+            if z3.is_int_value(ci):
+                return sv.zb(sv.cmp("==", sv.SV(CS(n.t, g.t, ci)), csq_spec(n, g, ci.as_long())))
+            return z3.BoolVal(True)
+        inp = dict(W=W, T=T, G=G, CS=cs, CSspec=csq_spec, CSdef=cs_def, lag=lag, norig=norig, of=of, g=ctx.int("g"),
                    watch=[W.X.sid, W.tm.sid, W.diam.sid, W.a2.sid, W.ppp.sid] + ([W.HM.sid] if pbc else []) + ([W.C.sid] if cond else []))
         return [self_, t, qrange, (W.C if cond else None), of], {}, inp
 
     def clause_names(self, case):
-        return ["result:table-of-q-and-Sq", "value=average-over-the-T-lag-origins-of-the-structure-factor-of-the-slow(fast)-subset", "file=returned",
-                "frame-inputs-not-written"]
+        return ["result:table-of-q-and-Sq", "value=average-over-the-T-lag-origins-of-the-structure-factor-of-the-slow(fast)-subset", VALUE_C13,
+                "file=returned", "frame-inputs-not-written"]
 
     def ensures(self, ctx, case, inp, out):
         from pyvc.pandas_model import df_content
@@ -1737,6 +1749,15 @@ class DynSq4(Unit):
             want = sv.div(Sum(0, norig, lambda n: CS(n, g, ci)), norig)
             eqs.append(sv.cmp("==", cols[c].get((g,)), want))
         yield "value=average-over-the-T-lag-origins-of-the-structure-factor-of-the-slow(fast)-subset", sv.implies(inr, sv.and_(*eqs))
+        # the same value with the per-origin table written out as C13's contract of conditional_sq specifies it
+        # (the origin sums of the symbol CSQ and of its definition coincide: extensionality of the origin sum, with the callee's
+        # postcondition CSQ(n, g, .) = csq_spec(n, g, .) at the witness origin; together with the clause above this is the value)
+        eqs2 = []
+        for ci, c in enumerate(SQCOLS):
+            eqs2.append(sv.cmp("==", Sum(0, norig, lambda n: CS(n, g, ci)), Sum(0, norig, lambda n: inp["CSspec"](n, g, ci))))
+        X = z3.Int("origin!witness")
+        template = z3.And(*[inp["CSdef"](X, g.t, z3.IntVal(ci)) for ci in range(len(SQCOLS))])
+        yield (VALUE_C13, sv.and_(*eqs2), {"timeout": 8, "solver_opts": {"unfold": False, "rounds": 2, "pointwise": [lambda x: z3.substitute(template, (X, x))]}})
         writes = [e for e in out.state.trace if e[0] == "to_csv"]
         if not inp["of"]:
             yield "file=returned", len(writes) == 0
